@@ -117,8 +117,8 @@ Proof.
 Qed.
 
 Definition Mref : list mdesc :=
-  [ {| m_status := 0; m_vs := [1;2;3;4]; m_ts := [(0,1,2);(0,2,3)]%nat; m_source := 99 |};
-    {| m_status := 0; m_vs := [5;6;7]; m_ts := [(0,1,2)]%nat; m_source := 0 |} ].
+  [ {| m_status := 0; m_vs := [1;2;3;4]; m_ts := [(0,1,2);(0,2,3)]%nat; m_source := 99; m_sflag := true |};
+    {| m_status := 0; m_vs := [5;6;7]; m_ts := [(0,1,2)]%nat; m_source := 0; m_sflag := false |} ].
 (* Mesh::triangle(t) is offset by the vertices of the previously loaded file (pinned and repaired) *)
 Lemma mesh_reload_refuted_lemma :
   m_last m_repaired Mref [MLoad 0%nat] (MLoad 1%nat) <> m_last m_repaired Mref [] (MLoad 1%nat)
@@ -135,5 +135,5 @@ Lemma surfsource_twice_lemma : forall c W s,
   hd 0 (snd (m_step c W MSurfSource (fst (m_step c W MSurfSource s)))) = hd 0 (snd (m_step c W MSurfSource s)).
 Proof.
   intros c W [g mv ts ou cb iso [i|]]; cbn [m_step y_desc]; [|reflexivity].
-  destruct (m_source (nth i W dummy_mdesc) =? 0) eqn:Hz; cbn [fst snd m_step y_desc]; rewrite Hz; reflexivity.
+  destruct (m_sflag (nth i W dummy_mdesc)) eqn:Hz; cbn [negb fst snd m_step y_desc]; rewrite Hz; reflexivity.
 Qed.
